@@ -96,7 +96,7 @@ def validate_voicing(ref_voicing, est_voicing):
         )
     for voicing in [ref_voicing, est_voicing]:
         # Make sure voicing is between 0 and 1
-        if np.logical_or(voicing < 0, voicing > 1).any():
+        if not np.logical_and(voicing >= 0, voicing <= 1).all():
             raise ValueError("Voicing arrays must be between 0 and 1.")
 
 
